@@ -134,18 +134,23 @@ deriving Repr
 structure CSt where
   checklist : List Tag := []     -- `iteration_termination_checklist[port]` (a set)
   terminated : Bool := false     -- `port in terminated`
+  failed : Bool := false         -- the step's `failed` flag, as far as THIS port's own termination token sets it
+                                 -- (a FAILED / CANCELLED termination of another port also sets it: not part of this one-port model)
   reading : Bool := true         -- a new `get` task is created for the port
+
+/-- the three-way branch on the token class (checklist / terminated / failed updates) -/
+def cpre (s : CSt) : CEv → CSt
+  | .data tag =>
+      if Gen.loopChecklistAdds (decide (tag.dropLast ∈ s.checklist)) then
+        (if tag ∈ s.checklist then s else { s with checklist := tag :: s.checklist })     -- `set.add`
+      else s
+  | .iterTerm tag => { s with checklist := s.checklist.filter (· ≠ tag) }
+  | .term st => { s with checklist := if Gen.loopChecklistClears st then [] else s.checklist, terminated := true,
+                         failed := s.failed || Gen.loopFails st }
 
 def cstep (s : CSt) (e : CEv) : CSt :=
   if !s.reading then s else
-  let s1 : CSt := match e with
-    | .data tag =>
-        if Gen.loopChecklistAdds (decide (tag.dropLast ∈ s.checklist)) then
-          (if tag ∈ s.checklist then s else { s with checklist := tag :: s.checklist })     -- `set.add`
-        else s
-    | .iterTerm tag => { s with checklist := s.checklist.filter (· ≠ tag) }
-    | .term st => { s with checklist := if Gen.loopChecklistClears st then [] else s.checklist, terminated := true }
-  { s1 with reading := Gen.loopKeepsReading s1.terminated s1.checklist.length }
+  { cpre s e with reading := Gen.loopKeepsReading (cpre s e).terminated (cpre s e).failed (cpre s e).checklist.length }
 
 end SFV.Loop
 
